@@ -6,7 +6,7 @@
    traces + exact correspondence (partial). *)
 From Coq Require Import ZArith List Bool.
 From Alliance Require Import Num KMap Types Monad Model Step Spec Hoare.
-From Alliance.Proofs Require Import SortedInv Frames Queues.
+From Alliance.Proofs Require Import SortedInv Frames Queues RedelCleanup.
 Import ListNotations.
 Open Scope Z_scope.
 
@@ -38,3 +38,13 @@ Theorem C15_exactly_the_matured_buckets_leave : forall h, let s := run init_stat
     redelq s' = filter (fun kv => negb (redel_matured (now s) kv)) (redelq s).
 Proof. intros h s. apply complete_redelegations_spec, reachable_Sorted. Qed.
 Print Assumptions C15_exactly_the_matured_buckets_leave.
+
+(* nothing of a matured redelegation is left behind: its record and its per-source index key are gone
+   (so the onward-hop restriction, which looks at the records, is lifted) *)
+Theorem C15_matured_entries_are_cleaned_up : forall h ct l r, let s := run init_state h in
+  In ([ct], l) (redelq s) -> ct < now s -> In r l ->
+  exists s', complete_redelegations s = Ok tt s' /\
+    kget (redels s') [r_del r; r_denom r; r_dst r; ct] = None /\
+    kget (redelidx s') [r_src r; ct; r_denom r; r_dst r; r_del r] = None.
+Proof. exact matured_redelegations_are_cleaned_up. Qed.
+Print Assumptions C15_matured_entries_are_cleaned_up.
